@@ -16,7 +16,7 @@ RULE = ("trace level: exact correspondence of every trash-restore run with the C
         "non-directory is replaced by the payload. distinct = (dest kind, payload kind, overwrite, selection, trash dir kind).")
 ASSUMPTIONS = ["a symlink at the destination (also one pointing to a directory) is 'an existing non-directory' (DESIGN 8.21 no. 12)"]
 
-DEST = ['absent', 'file', 'emptydir', 'dir', 'link_file', 'link_dir', 'dangling', 'link_into_trash']
+DEST = ['absent', 'file', 'emptydir', 'dir', 'link_file', 'link_dir', 'dangling', 'link_into_trash', 'twin_file']
 PAY = ['f', 'd', 'l']
 
 
@@ -28,6 +28,10 @@ def dest_nodes(kind, path):
         return []
     if kind == 'file':
         return [['f', path, 'already here']]
+    if kind == 'twin_file':
+        # another file of exactly the payload's size (and, in the sandbox, modification time): not the payload, whatever a shallow
+        # comparison says
+        return [['f', path, 'PAYLOAD OF X Y', 0o644, 777]]
     if kind == 'emptydir':
         return [['d', path, 0o755]]
     if kind == 'dir':
@@ -58,6 +62,12 @@ def table(rng, thorough):
         nodes = scen.canary() + [['d', home, 0o755], ['d', '/vol1', 0o755], ['d', '/vol1/work', 0o755], ['d', home + '/work', 0o755]]
         nodes += scen.entry(td, 'x y', pathv, '2024-01-02T00:00:00', pk)
         nodes += scen.entry(td, 'other', otherv, '2024-01-01T00:00:00' if sel == 'last' else '2024-01-03T00:00:00', 'f')
+        if dk == 'twin_file' and (ow or pk != 'f'):
+            continue                      # (judged without --overwrite, against a regular-file payload of that size)
+        if dk == 'twin_file':
+            for nd in nodes:
+                if nd[0] == 'f' and nd[1] == td + '/files/x y':
+                    nd += [0o644, 777]    # the same modification time as the twin
         if dk == 'link_into_trash':
             # a "peek" link the user made to the trashed copy itself: still something that exists at the destination (judged without
             # --overwrite only)
